@@ -598,7 +598,7 @@ class ACCLoopTrans(ParallelLoopTrans):
     '''
     # The types of node that must be excluded from the section of PSyIR
     # being transformed.
-    excluded_node_types = (PSyDataNode,)
+    excluded_node_types = (PSyDataNode, Return)
 
     def __init__(self):
         # Whether to add the "independent" clause
